@@ -186,6 +186,10 @@ func SpecEval(row PathRow, spec func(ask func(string) bool) string) (outcome str
 		}
 	}()
 	ask := func(name string) bool {
+		if strings.HasPrefix(name, "?") { // "?X": has X been decided on this path?
+			_, decided := row.Facts[name[1:]]
+			return decided
+		}
 		v, ok := row.Facts[name]
 		if !ok {
 			panic(needAtom{name})
